@@ -26,6 +26,7 @@ type c02End struct {
 	stalls      bool
 	tmoAt       int // index of the read that returns its bytes together with a temporary timeout error (-1: none)
 	tmoIdle     int // number of reads that return (0, temporary timeout) before any data
+	idle        int // number of reads that return (0, nil) before any data (a polling transport with nothing to deliver)
 	got         []byte
 	closed      chan struct{}
 	isClosed    bool
@@ -42,6 +43,11 @@ func (c *c02End) Read(p []byte) (int, error) {
 	if c.isClosed {
 		c.mu.Unlock()
 		return 0, net.ErrClosed
+	}
+	if c.idle > 0 {
+		c.idle--
+		c.mu.Unlock()
+		return 0, nil
 	}
 	if c.tmoIdle > 0 {
 		// a read deadline expired with nothing read: the copy loop is expected to try again
@@ -195,6 +201,10 @@ func Harness_C02_pipe() {
 	if ender == 0 || ender == 1 {
 		w := verif_Bool()
 		src.eofWithData, dst.eofWithData = w, w
+	}
+	// a polling transport on the target side that has nothing to deliver for a long while
+	if verif_Bool() {
+		dst.idle = 150
 	}
 	// read deadlines firing on the source side: before any data, or together with a chunk
 	if verif_Bool() {
